@@ -127,9 +127,18 @@ impl Default for RunOpts {
     }
 }
 
+/// the operation whose solitary execution is the reference of `op`: for a query of a private
+/// interpolator, the inner call on a fresh instance of the same configuration
+fn reference_twin(op: &Op) -> Op {
+    match &op.call {
+        Call::PrivQuery { inner } => Op { call: (**inner).clone(), ..op.clone() },
+        _ => op.clone(),
+    }
+}
+
 fn op_key(op: &Op) -> String {
     // what the answer may depend on: slot, call, stub plan (the schedule-only fields are excluded)
-    let mut o = op.clone();
+    let mut o = reference_twin(op);
     o.yield_mask = 0;
     serde_json::to_string(&o).unwrap()
 }
@@ -152,7 +161,7 @@ fn tabulate(spec: &RunSpec, reverse: bool) -> Result<RefTable, BuildFail> {
             let n = keys.len();
             let i = *keys.entry(k).or_insert(n);
             if i == ops.len() {
-                ops.push(op.clone());
+                ops.push(reference_twin(op));
             }
             row.push(i);
         }
@@ -201,7 +210,7 @@ fn tabulate_ops(spec: &RunSpec) -> RefTable {
             let n = keys.len();
             let i = *keys.entry(k).or_insert(n);
             if i == ops.len() {
-                ops.push(op.clone());
+                ops.push(reference_twin(op));
             }
         }
     }
@@ -821,19 +830,48 @@ pub fn run_spec(spec: &RunSpec, prop: Prop, opts: &RunOpts) -> RunResult {
     let viols: Mutex<Vec<Violation>> = Mutex::new(vec![]);
     let outs: Mutex<Vec<(usize, usize, usize, Outcome)>> = Mutex::new(vec![]);
     let crashed: Mutex<u64> = Mutex::new(0);
+    let mailbox: Mutex<std::collections::VecDeque<Box<dyn Slot>>> = Mutex::new(std::collections::VecDeque::new());
     std::thread::scope(|s| {
         for t in 0..n {
-            let (baton, events, viols, outs, crashed, table, shared) = (&baton, &events, &viols, &outs, &crashed, &table, &shared);
+            let (baton, events, viols, outs, crashed, table, shared, mailbox) = (&baton, &events, &viols, &outs, &crashed, &table, &shared, &mailbox);
             let th = &spec.threads[t];
             s.spawn(move || {
                 baton.enter(t);
                 let _g = LeaveGuard(baton, t);
+                let mut private: Vec<(usize, Box<dyn Slot>)> = vec![];
                 for (i, op) in th.ops.iter().enumerate() {
                     sched::yield_now(sched::SITE_OP);
                     if baton.stop_requested() {
                         break;
                     }
-                    let out = exec(&*shared[op.slot], op);
+                    // thread affinity: private interpolators of this client, and the mailbox through
+                    // which they migrate to be dropped elsewhere
+                    let out = match &op.call {
+                        Call::PrivBuild => {
+                            match build_slot(&spec.slots[op.slot]) {
+                                Ok(s) => private.push((op.slot, s)),
+                                Err(_) => {}
+                            }
+                            let _ = stub::take_build_log();
+                            continue;
+                        }
+                        Call::PrivSend => {
+                            if let Some((_, s)) = private.pop() {
+                                mailbox.lock().unwrap().push_back(s);
+                            }
+                            continue;
+                        }
+                        Call::PrivReap => {
+                            let got = mailbox.lock().unwrap().pop_front();
+                            drop(got);
+                            continue;
+                        }
+                        Call::PrivQuery { .. } => match private.iter().rev().find(|(s, _)| *s == op.slot) {
+                            Some((_, inst)) => exec(&**inst, &reference_twin(op)),
+                            None => continue,
+                        },
+                        _ => exec(&*shared[op.slot], op),
+                    };
                     let step = baton.step();
                     let want = &table.outs[table.idx[t][i]];
                     events.lock().unwrap().push(Event { step, thread: t, op: i, digest: out.digest() });
